@@ -592,6 +592,9 @@ def params_problems(ctx: Ctx, circ, mc, em: dict, seed: int) -> list[str]:
     if sp is None:
         return ["corr: params: the mapped circuit is not a sequence of unit cells"]
     cells_i, ends_i = sp
+    flat = [x for ab in ang["cells"] for x in ab] + list(ang["ends"])
+    if not all(np.isfinite(x) for x in flat):
+        return ["oracle: params: the decomposition produced a non-finite angle (nan / inf)"]
     ints = seed_ints(seed)
     need = 4 * n_steps(n) + 2 * n + 8
     for attempt in range(4):
